@@ -272,10 +272,10 @@ RandomStep ==
                [] kd = "attr"  -> \E c \in {PickS(AttrCodes, 11)}, v \in {PickS(AttrVals, 13)} : AddAttribute(c[1], c[2], v)
                [] kd = "ctc"   -> IF CanGrow /\ (PickS(1..3, 15) <= 2 \/ ~(Len(model.ctcs) < MaxCtc /\ CtcReady))
                                   THEN \E s \in {PickS(TreesOver(Names(model), CtcBinOps, 1), 16)},
-                                          o \in {PickS(CtcBinOps, 17)}, k \in {PickS(1..5, 18)} :
+                                          o \in {PickS(CtcBinOps, 17)}, k \in {PickS(1..6, 18)} :
                                          LET t == model.ctcs[Len(model.ctcs)].ast
                                          IN  ReplaceConstraint(IF k <= 2 THEN Bin(o, t, s) ELSE IF k <= 4 THEN Bin(o, s, t)
-                                                               ELSE Un("NOT", t))
+                                                               ELSE IF k = 5 THEN Un("NOT", t) ELSE Un("NOT", Un("NOT", t)))
                                   ELSE \E t \in {PickS(TreesOver(Names(model), CtcBinOps, CtcDepth)
                                             \cup (IF CtcArith THEN ArithTrees(Names(model)) ELSE {})
                                             \cup {ChainT(c[1], SetToSeq(Names(model)), c[2]) : c \in CtcChains}, 14)} : AddConstraint(t)
